@@ -13,6 +13,7 @@ import (
 
 	"github.com/artela-network/aspect-core/djpm"
 	"github.com/ethereum/go-ethereum/common"
+	"github.com/ethereum/go-ethereum/common/math"
 	"github.com/ethereum/go-ethereum/core/types"
 	ethvm "github.com/ethereum/go-ethereum/core/vm"
 	"github.com/ethereum/go-ethereum/params"
@@ -649,3 +650,88 @@ func verifJournalPops(op OpCode) int {
 	}
 	return 0
 }
+
+func init() {
+	verifHarnesses["VerifHarness_RelGas"] = VerifHarness_RelGas
+}
+
+// VerifHarness_RelGas: the memory-size and dynamic-gas functions of every table entry of a
+// fork (opcodes lo..hi), artela vs go-ethereum v1.12.0, on the same arbitrary stack words,
+// remaining gas and world (warm/cold, empty/existing, original/current storage values are
+// arbitrary and equal on both sides).
+func VerifHarness_RelGas(lo, hi, fork uint64) {
+	cfg := verifChainConfig(fork)
+	rnd := common.Hash{1}
+	var rp *common.Hash
+	if fork >= 9 {
+		rp = &rnd
+	}
+	opRaw := verifU64("op")
+	verifAssume(opRaw >= lo && opRaw <= hi)
+	op := OpCode(verifConcretize(opRaw))
+	dbA, dbG := newVerifStateDB(), newVerifStateDB()
+	dbG.codes = dbA.codes
+	evmA := NewEVM(BlockContext{BlockNumber: big.NewInt(0), Random: rp}, TxContext{}, dbA, cfg, Config{})
+	evmG := ethvm.NewEVM(ethvm.BlockContext{BlockNumber: big.NewInt(0), Random: rp}, ethvm.TxContext{}, dbG, cfg, ethvm.Config{})
+	oA := evmA.Interpreter().table[op]
+	need := oA.minStack
+	wordsA := make([]uint256.Int, 0, 20)
+	for i := 0; i < need; i++ {
+		wordsA = append(wordsA, verifU256("stack"))
+	}
+	wordsG := make([]uint256.Int, len(wordsA), 20)
+	copy(wordsG, wordsA)
+	mwRaw := verifU64("memwords")
+	verifAssume(mwRaw <= 2)
+	mw := verifConcretize(mwRaw)
+	memLen := mw * 32
+	self, callerAddr := verifAddr("self"), verifAddr("caller")
+	gas := verifU64("gas")
+	value := verifBig("callvalue")
+	contractA := NewContract(AccountRef(callerAddr), AccountRef(self), value, gas)
+	contractG := ethvm.NewContract(ethvm.AccountRef(callerAddr), ethvm.AccountRef(self), value, gas)
+	// memories of equal length; their content does not matter to gas
+	memA := &Memory{store: make([]byte, memLen), lastGasCost: verifMemCostWords(mw)}
+	memG := ethvm.VerifMemoryWith(make([]byte, memLen), verifMemCostWords(mw))
+
+	hasDynA := oA.dynamicGas != nil
+	var memSizeA uint64
+	var ovfA bool
+	stackA := &Stack{data: wordsA}
+	stackG := ethvm.VerifStackWith(wordsG)
+	if hasDynA && oA.memorySize != nil {
+		ms, ovf := oA.memorySize(stackA)
+		ovfA = ovf
+		if !ovf {
+			var ovf2 bool
+			memSizeA, ovf2 = math.SafeMul(toWordSize(ms), 32)
+			ovfA = ovf2
+		}
+	}
+	hasDynG, memSizeG, ovfG := evmG.Interpreter().VerifMemSizeOf(byte(op), stackG)
+	verifReach("both-evaluated")
+	if op >= RSVJNAL && op <= VRJNAL {
+		return
+	}
+	verifAssert(hasDynA == hasDynG, "C02: the same opcodes have a dynamic gas part")
+	verifAssert(ovfA == ovfG, "C02: the same memory-size overflow verdict")
+	if !hasDynA || !hasDynG || ovfA || ovfG {
+		return
+	}
+	verifAssert(memSizeA == memSizeG, "C02: the same memory size requested for every operand")
+	// the fee itself is compared for small expansions (the quadratic memory fee is the same
+	// function on both sides; Step/RelStep cover it through the interpreter loop)
+	verifAssume(memSizeA == memSizeG && memSizeA <= 128)
+	memSize := verifConcretize(memSizeA)
+	gasA, errA := oA.dynamicGas(evmA, contractA, stackA, memA, memSize)
+	gasG, errG := evmG.Interpreter().VerifDynGasOf(byte(op), contractG, stackG, memG, memSize)
+	verifAssert(verifSameErr(errA, errG), "C02: the same gas error")
+	if errA == nil && errG == nil {
+		verifAssert(gasA == gasG, "C02: the same dynamic gas for every operand, remaining gas and world")
+	}
+	verifCompareWorlds(dbA, dbG, "C02")
+	verifAssert(contractA.Gas == contractG.Gas, "C02: the gas function does not itself consume gas")
+}
+
+// verifMemCostWords is the memory fee already paid for w words.
+func verifMemCostWords(w uint64) uint64 { return w*params.MemoryGas + w*w/params.QuadCoeffDiv }
